@@ -29,3 +29,56 @@ func (l list[T]) each(f func(node[T])) {
 		f(*n)
 	}
 }
+
+// Same printed form, different types: a function-local type is printed as
+// pkgpath.Name whatever function declares it. `rec` below is, in turn, a type
+// whose size cannot be computed (it holds a type parameter), a large one and a
+// small one; `[4]generics.rec` and `[]generics.rec` are three types each.
+func recGeneric[T any](seed T) int {
+	type rec struct{ v T }
+	var arr [4]rec
+	arr[0].v = seed
+	n := 0
+	for i, r := range arr {
+		_ = r
+		n += i
+	}
+	return n
+}
+
+func recLarge() int {
+	type rec struct{ buf [1024]byte }
+	n := 0
+	for _, a := range [][4]rec{} {
+		n += len(a)
+	}
+	var one [4]rec
+	for _, r := range one {
+		n += int(r.buf[0])
+	}
+	return n
+}
+
+func recSmall() int {
+	type rec struct{ b byte }
+	n := 0
+	for _, a := range [][4]rec{} {
+		n += len(a)
+	}
+	var one [4]rec
+	for _, r := range one {
+		n += int(r.b)
+	}
+	return n
+}
+
+func recParam[T any](p struct{ v [64]T }, q [8]struct{ v T }) {
+	type rec struct {
+		v   T
+		pad [512]byte
+	}
+	for _, r := range []rec{} {
+		_ = r
+	}
+	_, _ = p, q
+}
